@@ -39,10 +39,13 @@ CLAIMS = {
             "the position invariant kept by every generated move and null move; that generated moves keep the king safe is C01's gen_legal). "
             "The tie to the binary: the real search with zero/near-zero budgets, clocks 95..105, repetition roots and pre-filled tables.",
             "DESIGN.md section 6 C03", "modulo fuel"),
-    "C06": ("proof", "Coq lemmas (decimal and ep-square round trip) + differential round trips and an independent canonical X-FEN printer",
-            "PARTIAL proof. Proved: clocks and ep squares round-trip through printer and parser (both arithmetic modes). Board rows, castling letters "
-            "and whole strings: correspondence run on positions reached by play (incl. inner castling rooks) and on canonical strings.",
-            "DESIGN.md section 6 C06", ""),
+    "C06": ("proof", "Coq: the printed FEN parses back to the very same position record for every valid position incl. every subset of castling rights in standard and Chess960 geometry (board loop invariant, castling-letter lemmas, field splitting, flip for Black to move); differential round trips and an independent canonical X-FEN printer",
+            "Proof on the model for the first sentence of the property: for every valid position (record RTC: well-formed boards, validate = None, correct key, clocks within i32, held "
+            "rights with the rook file on the proper wing, files of rights not held at their defaults), either side to move, both arithmetic modes, get_fen p = Some s and set_fen s = Some p -- "
+            "the very same record, key included (C06_fen_roundtrip). Positions reached by play in Chess960 may keep the file of a LOST right in castle_files: for those the string parses back "
+            "to the record with such dead files reset (C06_fen_roundtrip_modulo_dead_files, witness theorem) -- the same chess position; the comparison of the run treats castle files of rights "
+            "not held the same way. The converse direction (canonical X-FEN string -> same string) is decided by the correspondence run on canonical strings written by an independent printer.",
+            "DESIGN.md section 6 C06 and section 9", ""),
     "C08": ("proof", "Coq proofs: square attack query = Rules.attacked on the abstract board for both sides and both frames (exhaustive one-square leaper tables lifted by linearity, first-blocker lemma for the slider walks, mirror symmetry of the rules); count_moves = length(legal_moves) for every position (block-by-block, promotion targets split by rank), popcount = enumeration length, perft recursion, capture list = filter; + differential vs the rules (counts, captures, attack queries, perft)",
             "PARTIAL proof. Proved: is_sq_attacked p sq side = the rules' attack relation on abs_state's board, for either side as attacker and either "
             "colour to move, under the executable test attack_pre_b (boards below 2^64, one man at most per square, one king a side), which is "
@@ -83,7 +86,8 @@ CLAIMS = {
     "C07": ("proof", "Coq proof parse => validate for every string in both arithmetic modes + differential in both builds",
             "PARTIAL proof. Proved for every string and both modes: an accepted string yields a position that passed validate with the key "
             "recomputed from scratch, what validate guarantees (spelled out), and consistent bitboards (us|them = union of the piece boards, by the "
-            "XOR-parity invariant of the board loop). Completeness on D and 'a well-formed string denotes what it spells' rest on the "
+            "XOR-parity invariant of the board loop). Completeness in the form the model can carry: the FEN the engine prints for a valid position (any rights, Chess960 files) is accepted and yields that "
+            "position (C07_printed_fen_is_accepted, from C06). Acceptance of every canonical X-FEN of D written by an independent printer and 'a well-formed string denotes what it spells' rest on the "
             "correspondence run (both builds).", "DESIGN.md section 6 C07", ""),
     "C10": ("proof", "Coq proof: vm_compute sweep over regenerated magics lifted to all occupancies; exhaustive differential vs geometry",
             "Full proof about the model: magic lookup (table generated as in build.rs, indexed as in magic.rs, constants regenerated "
